@@ -493,7 +493,7 @@ def parse_case_strategy(draw, encs):
     ns = draw(st.booleans()); ere = draw(st.booleans())
     s = ser_options(draw, encs, version=d.version)
     sub = draw(st.integers(0, 7))
-    big = draw(gen_big(odds=11))
+    big = draw(gen_big(odds=30))
     if big:
         where, n, cls, pos = big
         toks = [(c, c) for c in big_run(n, cls)]
@@ -593,8 +593,10 @@ def big_run(n, cls):
     return ''.join(chr(0x10000 + ((i * 7 + i * i // 3) % 4000)) for i in range(n))
 
 @st.composite
-def gen_big(draw, odds=7):
-    if draw(st.integers(0, odds)) != 0: return None
+def gen_big(draw, odds=24):
+    # about one case in 25-30: a big case costs 0.4-1.5 s against ~0.03 s for an ordinary one (a middle value is tested because
+    # Hypothesis favours the ends of an integer range)
+    if draw(st.integers(0, odds)) != odds // 2: return None
     return (draw(st.sampled_from(['A', 'T', 'CD', 'C', 'PI', 'T', 'A'])), draw(st.sampled_from(BIG_LENGTHS)), draw(st.sampled_from(BIG_CLASSES)), draw(st.integers(0, 5)))
 
 MISC_ALPHA = [x for x in TEXT_ALPHA if '\r' not in x]     # CR inside comment/PI/CDATA cannot be written at all (no references there): not generated
